@@ -354,7 +354,7 @@ Proof.
   set (p := spawn_l true (j_marker (spec W j)) r news).
   pose proof (I_loc I j) as L. unfold jl in L. fold r in L.
   assert (Len : length news = length (deps W j)) by (apply map_length).
-  destruct (@spawn_l_ok (deps W j) (j_marker (spec W j)) (j_code (spec W j)) r news L P Len) as (LI & C & ST & SND & RDY & HD & LA & DN & IST & FDP & CT). fold p in LI, C, ST, SND, RDY, HD, LA, DN, IST, FDP, CT.
+  destruct (@spawn_l_ok (deps W j) (j_marker (spec W j)) (j_code (spec W j)) r news L P Len) as (LI & C & ST & SND & RDY & HD & LA & DN & IST & FDP & CT & _). fold p in LI, C, ST, SND, RDY, HD, LA, DN, IST, FDP, CT.
   set (r' := fst p) in *. set (s' := commit s j p).
   assert (NS : started (pc r) = false) by (rewrite P; auto).
   destruct (l_un L NS) as (Ul & Uh & Us & Uf & Uc & Uu).
@@ -532,6 +532,35 @@ Proof.
   intros W s j i N. destruct (check_cases W s j i) as [E|(d & r' & w & Nd & C & E)]; rewrite E; auto.
   apply check_l_async in C. destruct C as (A & _). destruct (ao_pc A) as [X|(X&_)]; [|congruence].
   destruct w; simpl; rewrite upd_same; auto.
+Qed.
+
+(* the intermediate state of aio_start after the token locks have been taken *)
+Lemma inv_acquired : forall W s j hd av, wf W = true -> Inv W s -> pc (jobs s j) = PWoken ALockIn ->
+  Inv W (s_avail (setjob s j (w_held (jobs s j) hd)) av).
+Proof.
+  intros W s j hd av WF I P. set (r := jobs s j) in *.
+  pose proof (I_loc I j) as L0. unfold jl in L0. fold r in L0.
+  assert (S : started (pc r) = true) by (rewrite P; auto).
+  set (ra := w_held r hd). set (s1 := s_avail (setjob s j ra) av).
+  assert (EJ : jobs s1 = upd (jobs s) j ra) by reflexivity.
+  assert (L : linv (deps W j) (j_marker (spec W j)) (j_code (spec W j)) ra) by (apply linv_held; auto).
+  assert (EC : cur ra = cur r) by reflexivity.
+  assert (EF : fdep ra = fdep r) by reflexivity.
+  assert (SD : st r = DONE -> st ra = DONE) by auto.
+  assert (SE : st r = ERROR -> st ra = ERROR) by auto.
+  assert (SS : started (pc ra) = true) by exact S.
+  assert (SP : past_loop (pc r) = true -> past_loop (pc ra) = true) by auto.
+  assert (RD : (st ra = READY \/ in_start (pc ra) = true) -> (st r = READY \/ in_start (pc r) = true)) by auto.
+  assert (LD : launches ra = 1%nat -> launches r = 1%nat \/ st r = READY \/ in_start (pc r) = true) by auto.
+  assert (CNT : unfinished s1 - unfinished s = (if counted (pc ra) then 1 else 0) - (if counted (pc r) then 1 else 0)).
+  { simpl. clear. destruct (counted (pc r)); lia. }
+  assert (FL : forall x, In x (failed s1) <->
+     In x (failed s) \/ (x = j /\ past_loop (pc ra) = true /\ past_loop (pc r) = false /\ st ra <> DONE)).
+  { intros x. split; auto. intros [X|(_ & X & Y & _)]; auto. simpl in X. congruence. }
+  assert (Q : forall c, In c (queue s1) -> In c (queue s) \/ cb_ok s1 c) by (intros c Hc; auto).
+  assert (RET : forall r0, pc r = PReturned r0 -> pc ra = PReturned r0) by auto.
+  assert (LCH : launches ra = launches r \/ (true = false /\ launches ra = Datatypes.S (launches r) /\ pc r = PWoken ALockIn)) by (left; reflexivity).
+  exact (proj1 (@inv_update_own true W s s1 j ra WF I S EJ L EC EF SD SE SS SP RET LCH RD LD CNT FL Q)).
 Qed.
 
 Lemma inv_start_body : forall W s j, wf W = true -> Inv W s -> pc (jobs s j) = PWoken ALockIn ->
